@@ -73,7 +73,7 @@ impl FromStr for UserBounds {
                 bail!("Field value 0 is not allowed (fields are 1-indexed)");
             }
             (Side::Some(left), Side::Some(right))
-                if right < left && (right * left).is_positive() =>
+                if right < left && right.signum() * left.signum() == 1 =>
             {
                 bail!("Field left value cannot be greater than right value");
             }
@@ -164,14 +164,14 @@ impl UserBoundsTrait<i32> for UserBounds {
     #[inline(always)]
     fn matches(&self, idx: i32) -> Result<bool> {
         match (self.l, self.r) {
-            (Side::Some(left), _) if (left * idx).is_negative() => {
+            (Side::Some(left), _) if left.signum() * idx.signum() == -1 => {
                 bail!(
                     "sign mismatch. Can't verify if index {} is between bounds {}",
                     idx,
                     self
                 )
             }
-            (_, Side::Some(right)) if (right * idx).is_negative() => {
+            (_, Side::Some(right)) if right.signum() * idx.signum() == -1 => {
                 bail!(
                     "sign mismatch. Can't verify if index {} is between bounds {}",
                     idx,
